@@ -39,6 +39,11 @@ def cases(tier, seed):
                 continue  # no boundary family defined: identical to gen
             for r in range(reps if fam == "gen" else max(1, reps // 2)):
                 out.append(dict(cfg=cfg, family=fam, B=8 if tier == "quick" else 12, s=rnd.randrange(10**6)))
+    # batch-mates of another magnitude (coordinates x 1000 for every other row)
+    for cfg in envzoo.routing_configs((6, 10)):
+        if cfg["env"] in ("op", "tsp", "cvrp", "sdvrp", "pdp") and not (cfg.get("vcap") or cfg.get("dense")):
+            for r in range(reps):
+                out.append(dict(cfg=cfg, family="mixed_scale", B=8, s=rnd.randrange(10**6)))
     # a few instances at production sizes
     if tier == "quick":
         for cfg in [c for c in envzoo.routing_configs((50,)) if (c["env"] != "mtvrp" or c.get("preset") in ("all",)) and not (c.get("vcap") or c.get("prize_required") or c.get("dense") or c.get("speed"))] + [c for c in envzoo.routing_configs((100,)) if c["env"] in ("tsp", "cvrp")]:
